@@ -115,4 +115,10 @@ theorem Sim.throw_raw {cx : Ctx} {path : IPath} {pre : List FieldNode → Prop}
   intro st hinv _
   exact ⟨st, .raw k, [], rfl, rfl, Post.refl hinv.memo hinv.dmemo, by simp⟩
 
+theorem Sim.throw_located {cx : Ctx} {path : IPath} {pre : List FieldNode → Prop}
+    {α : Type} (e : FErr) :
+    Sim cx path true pre (M.throw (.located e) : M α) { out := none, errs := [e], log := [] } := by
+  intro st hinv _
+  exact ⟨st, .located e, [], rfl, rfl, Post.refl hinv.memo hinv.dmemo, by simp⟩
+
 end Gql.Exec.Refine
